@@ -88,4 +88,11 @@ PROPS = {
              "Mount(p) for all 120 paths of depth<=4; AddMount guards and 2..6 concurrent AddMount of one point; distinct = distinct term",
         level_text="TODO", level_note="TODO", assumptions=[],
     ),
+    "C07": dict(
+        imports="Base.Path KV.Types KV.FS KV.Handle KV.Run KV.Corr Compose.Mount Compose.Sub", check="C07_check", ctype="C07_case",
+        show="let '(dir, prep, ops, _) := c in srun dir (fold_left (fun s o => fst (step s o)) prep kv_init) ops", n=dict(quick=500, thorough=8000), chunk=60,
+        rule="namespace histories run twice from identical start states: through Sub(fs, dir) at name, and on fs at dir/name; results (error paths translated) and the underlying trees compared after every step; "
+             "fs in {mem, mount.FS with dir at/inside the mount point, mount.FS with dir above the mount point, os.FS (native Sub), an FS exposing only Open}; dir in {., a, a/b, ab}; one-step and nested Sub(Sub(..)); distinct = distinct term",
+        level_text="TODO", level_note="TODO", assumptions=[],
+    ),
 }
